@@ -8,7 +8,8 @@ mkdir -p .work/bin evidence
 (cd extract && go build -o ../.work/bin/extract .)
 .work/bin/extract -repo "${VERIF_REPO:-/repo}" -specs extract/spec.d -out lean/TunnoxModel/Gen
 python3 tools_gen_lean_roots.py
-(cd lean && lake build TunnoxModel driver)
+(cd lean && lake build) || echo "setup: some Lean modules did not build against the current tree; the affected checks report it themselves"
+for f in lean/DriverMains/Main*.lean; do n=$(basename $f .lean); n=${n#Main}; (cd lean && lake build driver_$(echo $n | tr A-Z a-z)) ; done
 # warm the Go build cache for the harnesses (errors here are reported by the checks themselves)
 for f in checks/c*.py; do id=$(basename "$f" .py); ./check "$id" --warm || true; done
 echo "setup done"
